@@ -69,7 +69,16 @@ def driver_alphabet():
 HOSTILE = ['inbox', 'Inbox', 'INBOX/x', 'a', 'a/', 'a//b', '*', '%', 'a"b',
            'a\nb', 'é', '&', 'c', 'zz', 'a/b/c', 'A',
            # other characters that text tools take for line breaks
-           'a\x0cc', 'a\x1dc', 'a\x85c', 'a\u2028c', 'a\rc', ' a', 'a ']
+           'a\x0cc', 'a\x1dc', 'a\x85c', 'a\u2028c', 'a\rc', ' a', 'a ',
+           # names of the directories and files a maildir consists of
+           'cur', 'new', 'tmp', 'a/cur', 'cur/x', 'dovecot-uidlist',
+           'subscriptions', 'a/dovecot-uidlist']
+
+
+# names a maildir directory consists of (fs layout: cannot be mailboxes)
+FS_RESERVED = {'cur', 'new', 'tmp', 'maildirfolder', 'dovecot-uidlist',
+               'dovecot-uidlist.lock', 'dovecot-keywords', 'subscriptions',
+               'subscriptions.lock', 'dovecot.sieve'}
 
 
 def probe_alphabet():
@@ -81,7 +90,8 @@ def probe_alphabet():
                         '%/%/%', 'A*', '*x*', 'old'):
                 R.append(D(op, ref, pat))
     for n in ['INBOX', 'inbox', 'a', 'a/b', 'c', 'd', 'old', 'zz', 'a/', 'd/e',
-              'd/e/f', 'a\nb', 'é']:
+              'd/e/f', 'a\nb', 'é', 'cur', 'a/new', 'dovecot-uidlist',
+              'a/dovecot-keywords']:
         R.append(D('STATUS', n))
     M = []   # mutations
     for n in HOSTILE:
@@ -92,7 +102,8 @@ def probe_alphabet():
                  ('zz', 'x'), ('INBOX', 'a'), ('INBOX', 'new'), ('a', 'a/x'),
                  ('a', 'd/e'), ('c', 'a'), ('a', 'a'), ('inbox', 'new2'),
                  ('a/b', 'b'), ('a', 'é'), ('a', 'x/y'), ('d', 'a'),
-                 ('c', 'd'), ('a', 'a\nb'), ('d/e/f', 'a'), ('a', 'A')]:
+                 ('c', 'd'), ('a', 'a\nb'), ('d/e/f', 'a'), ('a', 'A'),
+                 ('cur', 'x'), ('a', 'tmp'), ('a', 'c/cur'), ('a/new', 'y')]:
         M.append(D('RENAME', a, b))
     for n in ['a', 'zz', 'INBOX']:
         M.append(D('UNSUBSCRIBE', n))
@@ -225,6 +236,11 @@ class Model:
             elif n.endswith('/') and n != '/':
                 exp_conds = {'OK', 'NO'}
                 strict = False
+            elif self.kind == 'fs' and any(
+                    c in FS_RESERVED for c in n.split('/')):
+                # with nested directories these names are the directories a
+                # maildir consists of: they cannot be mailboxes
+                exp_conds = {'NO'}
             elif self.kind != 'dict' and '/' in n and (not all(
                     m.exists('/'.join(n.split('/')[:k]))
                     for k in range(1, n.count('/') + 1))
@@ -314,6 +330,11 @@ class Model:
                 or names[1].split('/')[0].upper() == 'INBOX'):
             # maildir: the superior folders of the new name must exist
             exp_conds = exp_conds | {'NO'}
+        if self.kind == 'fs' and op == 'RENAME' and any(
+                c in FS_RESERVED for c in names[1].split('/')):
+            exp_conds = {'NO'}
+            new_names = set(m.names)
+            ident_moves = {}
         if outside_model:
             exp_conds = {'OK', 'NO', 'BAD'}
             strict = False
